@@ -18,6 +18,28 @@ CLAIMED = {
     },
 }
 
+def _ch(prop, what, ref, note=None):
+    return {
+        "category": "other",
+        "text": "Bounded symbolic verification: CrossHair executes the real code symbolically and z3 decides, per enumerated shape, the oracle for all values of the symbolic leaves (" + what + "). Every confirmed obligation has a reachability twin that must be refuted and replayed natively; every counterexample is replayed on the real code before it is reported. Not a proof: shapes, string lengths and batch sizes are bounded as stated in the evidence.",
+        "design_ref": ref,
+        "note": note or "Trusted: CrossHair's models of Python builtins, z3, the token-codec / parser-outcome stub standing in for the JSON codec, logging disabled, the oracle in the harness module.",
+        "technique": CH,
+        "engine": "CH",
+    }
+
+
+CLAIMED.update({
+    "C02": _ch("C02", "ids, version markers, parameters, return values; body = parser outcome", "DESIGN.md 3/C02"),
+    "C03": _ch("C03", "ids of every JSON kind, parameters; batch compositions n<=2/3", "DESIGN.md 3/C03"),
+    "C04": _ch("C04", "ids, parameters; notification form x outcome x batch position x dispatch/pool configuration", "DESIGN.md 3/C04",
+               "Trusted: as for C02, plus the recording pool standing for a ThreadPool that obeys C09 (composition argument: the dispatcher enqueues exactly one right task; C09 decides that every enqueued task runs exactly once)."),
+    "C05": _ch("C05", "ids and parameters; failure classes, method-name and message tables", "DESIGN.md 3/C05"),
+    "C13": _ch("C13", "ids, parameters, mutated Config values; request pairs and Config mutations", "DESIGN.md 3/C13"),
+    "C14": _ch("C14", "rpcid, method text, parameter leaves, Fault fields", "DESIGN.md 3/C14"),
+    "C15": _ch("C15", "every primitive leaf as Union[None,bool,int,float,str]; container nestings depth<=2/3", "DESIGN.md 3/C15"),
+})
+
 PENDING_REASON = "check not built yet in this session (planned, see DESIGN.md section 3); not claimed until its quick command passes on the unchanged tree"
 
 
